@@ -134,6 +134,25 @@ std::string runCase(const vio::Case &c) {
     } catch (...) {}
     unlink("x_pre.bin");
   }
+  // with the field `lfirst` the listing is produced first, directly after the earlier compilations (otherwise it is the
+  // second compilation of the source and follows a compilation that succeeded)
+  std::string earlyListing, earlyListingError;
+  bool haveEarly = false;
+  if (c.has("lfirst") && wants("listing")) {
+    std::ostringstream lst;
+    try {
+      if (shared) {
+        sharedSink.str("");
+        shared->run(xcmp::DriverAction::EMIT_ASM, c.str("src"), false);
+        earlyListing = sharedSink.str();
+      } else {
+        xcmp::Driver d2(lst);
+        d2.run(xcmp::DriverAction::EMIT_ASM, c.str("src"), false);
+        earlyListing = lst.str();
+      }
+      haveEarly = true;
+    } catch (const std::exception &e) { earlyListingError = e.what(); }
+  }
   {
     std::ostringstream sink;
     try {
@@ -155,7 +174,9 @@ std::string runCase(const vio::Case &c) {
   }
   std::string file = slurp(binName);
   j.boolean("ok", true).hex("file", file);
-  if (wants("listing")) {
+  if (wants("listing") && c.has("lfirst")) {
+    if (haveEarly) j.str("listing", earlyListing); else j.str("listing_error", earlyListingError);
+  } else if (wants("listing")) {
     std::ostringstream lst;
     try {
       if (shared) {
